@@ -66,6 +66,12 @@ for _nm, _d in (("augment", 1), ("diminish", -1)):
        modifies=["param:self"], havoc={"self.name": "str"},
        properties=["C11"], battery="notes")
 
+_c("remove_redundant_accidentals", params={"self": "Note"}, requires=VALID, returns="None",
+   old={"old_name": "self.name", "old_octave": "self.octave"},
+   ensures=[("letter-plus-net-accidentals", "shape(self.name, old_name[0], net(old_name))"),
+            ("same-pitch-class-same-octave", "pc(self.name) == pc(old_name) and self.octave == old_octave")],
+   modifies=["param:self"], havoc={"self.name": "str"}, properties=["C10"], battery="notes")
+
 _c("from_int",
    params={"self": "Note", "integer": "int"}, requires="integer >= 0", returns="Note",
    ensures=[("same-object", "same_object(result, self)"), ("pitch-is-the-integer", "pitch(self) == integer"),
